@@ -183,4 +183,5 @@ class GeomMultiJoin(om.ExplicitComponent):
         for i in range(self.num_sections - 1):
             edge_constraints.append((edges[2 * i + 1] - edges[2 * i]).flatten())
 
-        outputs["section_separation"] = np.array(edge_constraints).flatten()
+        # the edges may be constrained along different numbers of axes, so the pieces can differ in length
+        outputs["section_separation"] = np.concatenate(edge_constraints)
